@@ -41,6 +41,7 @@ TOL_HF = 1e-9
 TOL_EISO = 1e-9
 TOL_EMO = 1e-8
 TOL_GAP = 1e-10
+TOL_ASC = 1e-9       # ties of degenerate levels may come out in either order at round-off level
 TOL_Q = 1e-10
 TOL_QSUM = 1e-9
 TOL_DIP = 1e-9
@@ -182,7 +183,7 @@ def bundle(mol, es, sett, charges, mults, sp2_tol=None, do_fock=True):
     method = sett["method"]
     uhf = bool(sett.get("UHF", False))
     viol, margins = [], {}
-    mon = {"calls": 1, "rows": 0, "rows_uhf": 0, "rows_ion": 0, "rows_excited": 0, "rows_not_converged": 0,
+    mon = {"bundle_calls": 1, "rows": 0, "rows_uhf": 0, "rows_ion": 0, "rows_excited": 0, "rows_not_converged": 0,
            "enuc_rows": 0, "fock_rebuilds": 0, "emo_compared": 0, "gap_compared": 0, "charges_compared": 0,
            "dipole_compared": 0, "hf_compared": 0, "etot_compared": 0}
 
@@ -239,7 +240,9 @@ def bundle(mol, es, sett, charges, mults, sp2_tol=None, do_fock=True):
             mon["rows_excited"] += 1
         cis_tol = (sett.get("excited_states") or {}).get("tolerance", 0.0) if active[b] > 0 else 0.0
         mon["etot_compared"] += 1
-        if upd("etot_assembly", abs(Etot[b] - (Eelec[b] + Enuc[b] + exc)), TOL_ETOT + cis_tol):
+        # the excitation energy enters Etot either as the Davidson Ritz value or as the Rayleigh quotient of the returned
+        # amplitude; each lies within the residual tolerance of the eigenvalue, so the two may differ by 2 * tolerance
+        if upd("etot_assembly", abs(Etot[b] - (Eelec[b] + Enuc[b] + exc)), TOL_ETOT + 2.0 * cis_tol):
             viol.append({"clause": "etot-assembly", "mech": None,
                          "detail": dict(wit, Etot=float(Etot[b]), Eelec=float(Eelec[b]), Enuc=float(Enuc[b]), excitation=exc)})
         en = enuc_pairs(method, real, X[:n])
@@ -265,13 +268,16 @@ def bundle(mol, es, sett, charges, mults, sp2_tol=None, do_fock=True):
             g_rep = (gap[b] if s is None else (gap[b][s] if np.ndim(gap) == 2 else None)) if gap is not None and np.size(gap) else None
             ev = e[:norb]
             lab = "" if s is None else ("/alpha" if s == 0 else "/beta")
-            if np.any(np.diff(ev) < 0):
-                viol.append({"clause": "emo-not-ascending" + lab, "mech": None,
-                             "detail": dict(wit, e_mo=ev.tolist())})
-            if F is not None and not nc[b]:
+            w = None
+            if F is not None:      # e_mo = eig(F[returned dm]) is an algebraic identity, converged or not
                 Fb = F[b] if s is None else F[b][s]
                 sub = Fb[np.ix_(idx, idx)]
                 w = np.linalg.eigvalsh(0.5 * (sub + sub.T))
+            if np.any(np.diff(ev) < -TOL_ASC):
+                viol.append({"clause": "emo-not-ascending" + lab, "mech": None,
+                             "detail": dict(wit, e_mo=ev.tolist(), nocc=nocc, eig_F=None if w is None else w.tolist(),
+                                            gap=None if g_rep is None else float(g_rep))})
+            if w is not None:
                 mon["emo_compared"] += 1
                 if upd("emo_vs_fock_eigs", np.abs(np.sort(ev) - w).max(), TOL_EMO):
                     viol.append({"clause": "emo-vs-fock-eigenvalues" + lab, "mech": None,
@@ -281,7 +287,8 @@ def bundle(mol, es, sett, charges, mults, sp2_tol=None, do_fock=True):
                 mon["gap_compared"] += 1
                 if upd("gap_definition", abs(float(g_rep) - (ev[nocc] - ev[nocc - 1])), TOL_GAP):
                     viol.append({"clause": "gap-definition" + lab, "mech": None,
-                                 "detail": dict(wit, gap=float(g_rep), lumo=float(ev[nocc]), homo=float(ev[nocc - 1]), nocc=nocc)})
+                                 "detail": dict(wit, gap=float(g_rep), lumo=float(ev[nocc]), homo=float(ev[nocc - 1]), nocc=nocc,
+                                                e_mo=ev.tolist(), eig_F=None if w is None else w.tolist())})
         # ---- charges ---------------------------------------------------------------------------
         Pb = dm[b] if dm.ndim == 3 else dm[b][0] + dm[b][1]
         pop = np.diag(Pb).reshape(molsize, 4).sum(axis=1)
